@@ -85,10 +85,11 @@ class Cor:
     """state of a coroutine (async fn / async block after the state transform): d = state discriminant (0 unresumed,
     1 returned, 2 panicked, >= 3 suspended at an await), ups = captured variables {idx: value}, vs = locals saved across
     awaits {variant name: {idx: value}}; with a base name, fields never written read as fresh symbols (arbitrary state)"""
-    __slots__ = ('d', 'ups', 'vs', 'base')
+    __slots__ = ('d', 'ups', 'vs', 'base', 'key')
 
-    def __init__(self, d, ups, vs=None, base=None):
+    def __init__(self, d, ups, vs=None, base=None, key=None):
         self.d, self.ups, self.vs, self.base = d, dict(ups), {k: dict(v) for k, v in (vs or {}).items()}, base
+        self.key = key      # `file:line:col: line:col` of the async block / name of the async fn (which body this is)
 
     def __repr__(self):
         return 'Cor(%s,%r,%r)' % (self.d, self.ups, self.vs)
@@ -799,7 +800,7 @@ class Engine:
             for vn in set(a.vs) | set(b.vs):
                 x, y = a.vs.get(vn, {}), b.vs.get(vn, {})
                 vs[vn] = {k: self.merge(c, x.get(k), y.get(k)) for k in set(x) | set(y)}
-            return Cor(If(c, a.d, b.d), ups, vs, a.base or b.base)
+            return Cor(If(c, a.d, b.d), ups, vs, a.base or b.base, a.key or b.key)
         if isinstance(a, Ref) and isinstance(b, Ref):
             if a.cell == b.cell and a.path == b.path:
                 return a
@@ -1016,7 +1017,7 @@ class Engine:
                     cur = self.project(v, ('f', idx, ty), mem, guard, where)
                 ups = dict(v.ups)
                 ups[idx] = self.write_path(cur, path[1:], new, mem, guard, where)
-                return Cor(v.d, ups, v.vs, v.base)
+                return Cor(v.d, ups, v.vs, v.base, v.key)
             if v is None:
                 # building an aggregate field by field
                 return self.write_path(Adt('?', {}, None), path, new, mem, guard, where)
@@ -1032,7 +1033,7 @@ class Engine:
                 cur = self.sym('%s.%s.%d' % (v.base, st[1], f[1]), f[2], mem)
             vs = {k: dict(x) for k, x in v.vs.items()}
             vs.setdefault(st[1], {})[f[1]] = self.write_path(cur, path[2:], new, mem, guard, where)
-            return Cor(v.d, v.ups, vs, v.base)
+            return Cor(v.d, v.ups, vs, v.base, v.key)
         if st[0] == 'v':
             f = path[1]
             if v is None or not isinstance(v, En):
@@ -1249,6 +1250,10 @@ class FnRun:
             vals = [self.operand(o, mem, guard) for _, o in fields]
             if kind in ('tuple', 'array'):
                 return Tup(vals)
+            mc = re.match(r'\{coroutine@(.*?)(?: \(#\d+\))?\}$', name)
+            if mc:
+                # an async block being created: state 0, captured variables in declaration order
+                return Cor(0, dict(enumerate(vals)), None, None, mc.group(1))
             return E.make_adt(name, vals, [n for n, _ in fields], dest_ty)
         if k == 'repeat':
             v = self.operand(rv[1], mem, guard)
@@ -1471,7 +1476,7 @@ class FnRun:
             except Unsupported:
                 pass
             if isinstance(cur, Cor):
-                self.write(st[1], Cor(st[2], cur.ups, cur.vs, cur.base), mem, guard)
+                self.write(st[1], Cor(st[2], cur.ups, cur.vs, cur.base, cur.key), mem, guard)
                 return
             ty = self.place_ty(st[1]) or (cur.name if isinstance(cur, En) else '?')
             vs = cur.vs if isinstance(cur, En) else {}
